@@ -2,6 +2,7 @@
   Props/C10.lean — panics pass through to the caller and leave the circuit usable (sequential part; the gauge part
   under schedules is Conc/Gauge, the Go wrapper is C18).
 -/
+import CircuitProofs.Props.C10Tie
 import CircuitProofs.Props.CircuitCommon
 import CircuitProofs.Lemmas.CircuitC
 namespace CM.Props.C10
